@@ -1,6 +1,15 @@
 import CsVerif.Model.C12
+import CsVerif.Model.C12Gen
+import CsVerif.Model.PyUShow
 import CsVerif.Gen.StrLit
-/-! Line-protocol driver for the C12 model. -/
+/-! Line-protocol driver for the C12 model.
+
+`g<op> …` (streams `g-*`): the same case run through the definitions TRANSLATED from the source of `value_to_string`,
+`string_token_to_bytes` and `StringIterator` (Gen/PyC2Prof.lean), rendered in the format of `<op>`; a value of an unexpected
+shape is rendered `?…` (and so differs from the real code).
+`garg vts|stb <value>`: the translated function on an argument of any kind (notation of Model/PyUShow.lean; `I0[type;value]` is a
+`Token`), the result in the same notation.
+`pyu <op> <operands>`: one operation of the run-time library added for c2profile.py (Model/PyU_T12.lean). -/
 namespace C12
 open Proto
 
@@ -51,6 +60,139 @@ def embed (tpl : Txt) (a b : Bytes) : String :=
     match walk (valueToString a) (valueToString b) segs with
     | none => "split"
     | some outs => " ".intercalate outs
+
+/-! ### `g-*` streams: the translated definitions -/
+
+def showPyS {α : Type} (f : α → String) : PyU.PyS α → String
+  | .ok a => "ok " ++ f a
+  | .error (.py e) => "exc " ++ e.name
+  | .error .stop => "exc StopIteration"
+
+def vBytes (v : PyU.V) : String :=
+  match v with
+  | .bytes b => showBytes b
+  | _ => "?bytes"
+
+/-- translated `value_to_string` on any argument, as latin-1 text -/
+def vtsG (arg : PyU.V) : Option Txt :=
+  match Gen.PyC2Prof.value_to_string arg with
+  | .ok v => C12Gen.txtOf v
+  | .error _ => none
+
+def showTxt? : Option Txt → String
+  | some t => showBytes t
+  | none => "?txt"
+
+/-- translated `string_token_to_bytes(Token("STRING", text))` -/
+def decG (text : List Nat) : String := showPyS vBytes (C12Gen.stringTokenToBytesG text)
+
+def walkG (la lb : Txt) : List Seg → Option (List String)
+  | [] => some []
+  | .txt _ :: segs => walkG la lb segs
+  | .lit _ 2 :: segs => walkG la lb segs
+  | .lit second mode :: segs =>
+    let tail := segs.flatMap (renderSeg la lb)
+    match scanString ((if second then lb else la) ++ tail), walkG la lb segs with
+    | some (tok, rest), some more =>
+      if rest = tail then
+        some ((if mode = 1 then decG (tok.map (·.toNat))
+               else "ok " ++ showBytes (pySliceTo (pySliceFrom tok 1) (some (-1)))) :: more)
+      else none
+    | _, _ => none
+
+def embedG (tpl : Txt) (a b : Bytes) : String :=
+  match parseTemplate tpl, vtsG (.bytes a), vtsG (.bytes b) with
+  | some segs, some la, some lb =>
+    match walkG la lb segs with
+    | none => "split"
+    | some outs => " ".intercalate outs
+  | none, _, _ => "bad-op"
+  | _, _, _ => "?txt"
+
+def classes : List PyU.Cls := [Gen.PyC2Prof.Token, Gen.PyC2Prof.StringIteratorCls]
+
+def clsOf (cid : Nat) : Option PyU.Cls := classes.find? (·.cid == cid)
+
+def vTok (s : String) : Option PyU.V := PyU.vTok (fun _ => none) clsOf s
+
+def strOf : PyU.V → Option String
+  | .str cs => some (String.ofList (cs.map Char.ofNat))
+  | _ => none
+
+open PyU in
+def pyuStep : List String → String
+  | [op, a] =>
+    match vTok a with
+    | none => "bad-op"
+    | some a =>
+      match op with
+      | "reprv" => showPy vShow (reprV a)
+      | "ord" => showPy vShow (PyU.ord a)
+      | "chr" => showPy vShow (PyU.chr a)
+      | "bytes" => showPy vShow (bytesOf a)
+      | _ => "bad-op"
+  | [op, a, b] =>
+    match vTok a, vTok b with
+    | some a, some b =>
+      match op with
+      | "intbase" => showPy vShow (intBase Gen.PyC2Prof.intTables a b)
+      | "join" => showPy vShow (PyU.join a b)
+      | _ => "bad-op"
+    | _, _ => "bad-op"
+  | [op, a, b, c] =>
+    match vTok a, vTok b, vTok c with
+    | some a, some b, some c =>
+      match op with
+      | "strreplace" => showPy vShow (PyU.strReplace a b c)
+      | "setattr" =>
+        match strOf b with
+        | some n => showPy vShow (setAttrObj a n c)
+        | none => "bad-op"
+      | _ => "bad-op"
+    | _, _, _ => "bad-op"
+  | _ => "bad-op"
+
+def gstep : List String → String
+  | ["gvtss", v] =>
+    match bytesTok v with
+    | some v => showTxt? (vtsG (C12Gen.latin v))
+    | none => "bad-op"
+  | ["grt", v] =>
+    match bytesTok v with
+    | some v =>
+      match vtsG (.bytes v) with
+      | some t => showBytes t ++ " " ++ decG (t.map (·.toNat)) ++ " " ++ showScan (scanString t)
+      | none => "?txt"
+    | none => "bad-op"
+  | ["gtok", v, r] =>
+    match bytesTok v, bytesTok r with
+    | some v, some r =>
+      match vtsG (.bytes v) with
+      | some t => showScan (scanString (t ++ r))
+      | none => "?txt"
+    | _, _ => "bad-op"
+  | ["gdec", t] =>
+    match bytesTok t with
+    | some t => decG (t.map (·.toNat))
+    | none => "bad-op"
+  | ["gdeccp", t] =>
+    match natsTok t with
+    | some t => decG t
+    | none => "bad-op"
+  | ["gemb", tpl, a, b] =>
+    match bytesTok tpl, bytesTok a, bytesTok b with
+    | some tpl, some a, some b => embedG tpl a b
+    | _, _, _ => "bad-op"
+  | ["garg", "vts", a] =>
+    match vTok a with
+    | some a => showPy PyU.vShow (Gen.PyC2Prof.value_to_string a)
+    | none => "bad-op"
+  | ["garg", "stb", a] =>
+    match vTok a with
+    | some a => showPyS PyU.vShow (Gen.PyC2Prof.string_token_to_bytes 200 a)
+    | none => "bad-op"
+  | "pyu" :: rest => pyuStep rest
+  | _ => "bad-op"
 
 def step : List String → String
   | ["vts", v] =>
@@ -105,6 +247,6 @@ def step : List String → String
   | ["pattern"] =>
     showNats Gen.StrLit.stringPatternCodes ++ " " ++ toString Gen.StrLit.globalRegexFlags
       ++ " " ++ toString Gen.StrLit.stringPatternFlags.length
-  | _ => "bad-op"
+  | ws => gstep ws
 
 end C12
